@@ -184,7 +184,9 @@ class LiveServer:
             self.thread.join(10)
         for d in self._tmp:
             shutil.rmtree(d, ignore_errors=True)
-        structlog.configure(wrapper_class=structlog.make_filtering_bound_logger(50))
+        from .. import core as _core
+
+        _core.configure_harness_logging()      # start_server re-configures logging: put the harness configuration back
         return False
 
 
